@@ -141,11 +141,13 @@ Theorem C10_ack_rst_ignored : forall cfg h mc req out,
 Proof. exact not_conn_silent. Qed.
 Print Assumptions C10_ack_rst_ignored.
 
-(* ---- otherwise exactly the handler registered for that path and method runs once ---- *)
+(* ---- otherwise exactly the handler registered for that path and method runs once.
+   sp_handler_outs = dp_invoke on the selected resource for each admitted view of the options
+   (sp_views: as libcoap edits them = sp_handler_out, unedited, or one edit only) ---- *)
 Theorem C10_handler_iff_unblocked : forall cfg h mc req,
-  conn req -> dp_bad_class (m_code req) = false -> dp_is_request (m_code req) = true ->
+  0 <= m_type req <= 3 -> conn req -> dp_bad_class (m_code req) = false -> dp_is_request (m_code req) = true ->
   sp_blocked cfg mc req = false ->
-  forall out, dp_allowed cfg h mc req out <-> out = sp_handler_out cfg h mc req.
+  forall out, dp_allowed cfg h mc req out <-> In out (sp_handler_outs cfg h mc req).
 Proof. exact unblocked_runs_handler. Qed.
 Print Assumptions C10_handler_iff_unblocked.
 
@@ -170,6 +172,14 @@ Theorem C10_handler_sees_request : forall cfg req,
   m_mid (sp_req' cfg req) = m_mid req.
 Proof. exact handler_sees_request. Qed.
 Print Assumptions C10_handler_sees_request.
+
+(* the relation also admits the unedited options and each edit alone *)
+Theorem C10_handler_views : forall cfg req o, In o (sp_views cfg req) ->
+  map fst o = map fst (m_opts req) /\
+  (forall n, n <> DP_BLOCK2 -> n <> DP_HOP_LIMIT -> dp_values n o = dp_values n (m_opts req)) /\
+  dp_uri_path cfg o = dp_uri_path cfg (m_opts req) /\ dp_query cfg o = dp_query cfg (m_opts req).
+Proof. exact handler_views. Qed.
+Print Assumptions C10_handler_views.
 
 (* the resource: registered path first; nothing iff no such path, not /.well-known/core and no
    unknown-resource handler for the method *)
@@ -253,7 +263,7 @@ Theorem C10_nonvacuous :
    EvTx false (mkMsg 2 69 4660 [170; 187] [(12, [0])] [104; 105])] /\
   sp_blocked ex_cfg false (ex_get 0 [97] []) = false /\
   dp_in_scope ex_cfg ex_handler (ex_get 0 [97] []) /\
-  dp_allowed_outs ex_cfg ex_handler false (ex_get 0 [97] []) =
-  [dp_serve ex_cfg ex_handler false (ex_get 0 [97] [])].
+  (forall out, dp_allowed ex_cfg ex_handler false (ex_get 0 [97] []) out ->
+               out = dp_serve ex_cfg ex_handler false (ex_get 0 [97] [])).
 Proof. exact ex_handler_runs. Qed.
 Print Assumptions C10_nonvacuous.
